@@ -19,7 +19,7 @@ SPEC['C02'] = ('Top-down build does no unnecessary work', ['Local', 'Local2', 'H
   ('C02_consistent_dep_continues', 'Local', 'check_deps_consistent', 'a dependency reported Consistent by its own checker does not stop validation'),
   ('C02_validation_in_order', 'Local', 'check_deps_app', 'dependencies are validated left to right in the recorded (creation) order: a consistent prefix is skipped over'),
 ], 'PARTIAL for the last clause (executed set is a subset of a from-scratch build for exact checkers): decided by correspondence + oracle.')
-SPEC['C03'] = ('Bottom-up build leaves every known task up to date', ['Local2', 'Findings', 'BuDone', 'BuJust', 'ExecInv', 'Cert', 'Stable', 'NoAbort', 'Valid', 'Sim', 'C01Witness', 'OnceAll', 'UpToDate', 'UpToDateWitness', 'GoodHist'], [
+SPEC['C03'] = ('Bottom-up build leaves every known task up to date', ['Local2', 'Findings', 'BuDone', 'BuJust', 'ExecInv', 'Cert', 'Stable', 'NoAbort', 'Valid', 'Sim', 'C01Witness', 'OnceAll', 'UpToDate', 'UpToDateWitness', 'GoodHist', 'TdValid'], [
   ('C03_witness_premises', 'UpToDateWitness', 'C03_witness_premises', 'non-vacuity of the two theorems above: for the generator/consumer instance of C01Witness.v (static class, exact = reflexive checkers), after a session that built both tasks every recorded dependency is consistent (AllValid, decided by the verified checker allvalidb), the generator input is then changed and reported'),
   ('C03_witness_does_real_work', 'UpToDateWitness', 'C03_witness_does_real_work', '... the bottom-up build re-executes the generator and the consumer (newest first [0; 1]), stores the new output 211, and requiring the consumer in a new session returns 211'),
   ('C03_every_scheduled_task_is_executed', 'BuDone', 'bottom_up_executes_all_scheduled', 'partial, GLOBAL: for ALL programs, checkers, fuel, worlds and change sets, in a bottom-up build that completes every scheduling event of a task is followed (later in the event stream) by an execution start of that task: nothing that was found affected -- directly by a reported change, or indirectly by the output or writes of a task executed in the build -- is left unexecuted (the build ends with an empty queue)'),
@@ -348,6 +348,18 @@ RAW['C03'] += [
   AllValid RC OC wh -> roots_below ord fuel ops -> (forall t, In t (roots ops) -> get_task_output wh t <> None) ->
   AllValid RC OC (snd (run_history RC OC P always fuel init_world (h ++ [HSession ops])))""",
    'intros gen wck ord RC OC P sf always HS HWF HWO HRefl HReflO fuel h ops. exact (requires_of_known_tasks_keep_AllValid gen wck ord RC OC P sf always HS HWF HWO fuel h ops).'),
+]
+
+RAW['C03'] += [
+  ('C03_requires_keep_all_valid',
+   '... and by EVERY session of top-down requires, of known and of new tasks (TdValid.v, 593 lines: known tasks are pure re-validations - Idem.v -, new tasks execute, record fresh and therefore consistent dependencies, and have no dependents; the top-down interpreters never touch the queue). Hence AllValid is an invariant of every history in which each batch of external changes is followed by a session that starts with a bottom-up build told about every changed resource and continues with any requires',
+   TOTAL_BINDERS + """  (forall c env r v, rc_check (RC c) env r v (sf c r v) = Consistent) ->
+  (forall c o, oc_check (OC c) o (oc_stamp (OC c) o) = true) ->
+  forall fuel h ops,
+  let wh := snd (run_history RC OC P always fuel init_world h) in
+  AllValid RC OC wh -> roots_below ord fuel ops ->
+  AllValid RC OC (snd (run_history RC OC P always fuel init_world (h ++ [HSession ops])))""",
+   'intros gen wck ord RC OC P sf always HS HWF HWO HRefl HReflO fuel h ops. exact (requires_keep_AllValid gen wck ord RC OC P sf HS HWF HWO HRefl HReflO always fuel h ops).'),
 ]
 
 RAW['C04'] = [
